@@ -51,6 +51,8 @@ func (o mpOp) String() string {
 		return fmt.Sprintf("%s %s ?%s", o.kind, o.k, o.desc)
 	case "initiate-nokey":
 		return "initiate without a key"
+	case "delete-object":
+		return "delete " + o.k
 	case "recreate-bucket":
 		return "delete the bucket and create it again"
 	case "delete-bucket-refused":
@@ -82,6 +84,14 @@ type mpSys struct {
 	burned      bool
 	searchInits int
 	recreated   bool
+	// fresh[key]: the object at key was created by a complete when no object was there, so
+	// nothing can have been carried over into it (store-fault world)
+	fresh map[string]bool
+	// faulted: a complete has failed in the backend. What that may have done to the pending
+	// upload is invisible until a later complete: part of the state key.
+	faulted bool
+	// faultedOver: what lay under the key when that happened (the failed request has read it)
+	faultedOver string
 }
 
 const mpMetaKey = "x-amz-meta-up"
@@ -129,7 +139,7 @@ func newMPSys(cfg drv.Config, u *mpUniverse, prop string) (*mpSys, error) {
 
 func (s *mpSys) Close() { s.w.Close() }
 func (s *mpSys) Key() string {
-	return drv.KeyOf(s.w.Snapshot(drv.SnapOpts{Uploads: true, Versions: s.w.Cfg.Kind == drv.Mem}) + fmt.Sprintf("inits=%d recreated=%v", min(s.inits, 1), s.recreated) + "MODEL " + s.renderModel())
+	return drv.KeyOf(s.w.Snapshot(drv.SnapOpts{Uploads: true, Versions: s.w.Cfg.Kind == drv.Mem}) + fmt.Sprintf("inits=%d recreated=%v fresh=%v faulted=%v%s", min(s.inits, 1), s.recreated, s.fresh, s.faulted, s.faultedOver) + "MODEL " + s.renderModel())
 }
 
 func min(a, b int) int {
@@ -271,6 +281,11 @@ func (s *mpSys) Ops() []engine.Op {
 		}
 	}
 	if s.w.Cfg.PutFault {
+		for _, k := range s.u.keys {
+			if s.m.Objects[k] != nil {
+				ops = append(ops, mpOp{kind: "delete-object", k: k})
+			}
+		}
 		// the environment refuses the store of an otherwise valid complete
 		for i, u := range s.m.Uploads {
 			if ns := u.PartNumbers(); len(ns) > 0 {
@@ -436,8 +451,25 @@ func (s *mpSys) apply(op engine.Op) (string, *engine.Violation) {
 			return bad("etag", cond, r, "200", "ETag "+r.Header.Get("ETag"))
 		}
 		return respSig(r), nil
+	case "delete-object":
+		r := s.w.Do(drv.Req{Method: "DELETE", Path: "/" + s.bucket + "/" + o.k})
+		if r.Status != 204 || r.Panic != "" {
+			return respSig(r), &engine.Violation{Sig: "FOREIGN", Msg: "delete object: " + r.Short()}
+		}
+		delete(s.m.Objects, o.k)
+		delete(s.fresh, o.k)
+		return respSig(r), nil
 	case "complete":
 		u := s.m.Uploads[o.u]
+		if s.fresh == nil {
+			s.fresh = map[string]bool{}
+		}
+		wasAbsent := s.m.Objects[u.Key] == nil
+		defer func(k string) {
+			if s.m.Objects[k] != nil && s.last == "complete" {
+				s.fresh[k] = wasAbsent // (completed over an existing object: its metadata may be carried over)
+			}
+		}(u.Key)
 		cond := strings.TrimSpace(strings.SplitN(o.desc, "]", 2)[1])
 		if i := strings.Index(cond, "#"); i >= 0 {
 			cond = cond[:i]
@@ -481,6 +513,12 @@ func (s *mpSys) apply(op engine.Op) (string, *engine.Violation) {
 		r := s.w.Do(drv.Req{Method: "POST", Path: "/" + s.bucket + "/" + u.Key, Query: drv.Q("uploadId", u.ID), Body: completeBody(o.list)})
 		used := s.w.FailPuts == 0
 		s.w.FailPuts = 0
+		s.faulted = true
+		if ob := s.m.Objects[u.Key]; ob != nil {
+			s.faultedOver += "|" + drv.MetaString(ob.Meta)
+		} else {
+			s.faultedOver += "|-"
+		}
 		if !used {
 			return respSig(r), &engine.Violation{Sig: "FOREIGN", Msg: "valid complete did not reach the backend: " + r.Short()}
 		}
@@ -527,6 +565,7 @@ func (s *mpSys) apply(op engine.Op) (string, *engine.Violation) {
 			return respSig(r), &engine.Violation{Sig: "FOREIGN", Msg: "plain put failed: " + r.Short()}
 		}
 		s.m.Objects[o.k] = &model.Obj{Body: []byte(o.body), Meta: map[string]string{mpMetaKey: "plain"}}
+		delete(s.fresh, o.k)
 		return respSig(r), nil
 	}
 	panic("c06: unknown op")
@@ -547,6 +586,12 @@ func (s *mpSys) Check() ([]*engine.Violation, int64) {
 		evals++
 		if f, msg := checkObjView(v, s.m.Objects[k], false); f != "" {
 			add("get", f, existsStr(s.m.Objects[k] != nil), "GET /%s/%s: %s", s.bucket, k, msg)
+		} else if o := s.m.Objects[k]; o != nil && s.fresh[k] {
+			// completed where no object was: it carries the metadata given at initiation and
+			// nothing else (whatever an earlier, failed complete may have looked at)
+			if got, has := v.Meta[mpMetaKey]; has && o.Meta[mpMetaKey] != got {
+				add("get", "foreign-metadata", "completed-into-an-empty-key", "GET /%s/%s: %s=%q, which was not given at initiation (the key held no object when the upload was completed)", s.bucket, k, mpMetaKey, got)
+			}
 		}
 	}
 	for i, u := range s.m.Uploads {
@@ -643,9 +688,9 @@ func runMP(c *engine.Ctx, prop string) {
 		// complete fails and must leave the pending upload (every part) as it was,
 		// so that a retry stores the full object
 		cfg := drv.Config{Kind: drv.Mem, PutFault: true}
-		fu := &mpUniverse{keys: []string{"a"}, partNums: []int{1, 2}, bodies: []string{"a", "bb"}, maxOpen: 2, maxInit: 2, maxParts: 2}
+		fu := &mpUniverse{keys: []string{"a"}, partNums: []int{1, 2}, bodies: []string{"a"}, maxOpen: 1, maxInit: 2, maxParts: 2}
 		name := prop + "/mem/store-fault"
-		d := depth
+		d := depth + 2 // put, initiate, part, failed complete, delete, complete (+1: the state after it is checked)
 		engine.RunSeq(c, engine.SeqSpec{Name: name, World: "mem", MaxDepth: d,
 			New: func() (engine.Sys, error) { return newMPSys(cfg, fu, prop) }})
 		c.Bounds[name] = map[string]interface{}{"keys": fu.keys, "part_numbers": fu.partNums, "part_bodies": fu.bodies, "injected": "PutObject error during complete", "history_depth": d}
